@@ -175,7 +175,9 @@ def key_of_logs(ops):
     for b, pc, r in ops:
         if b < 0:
             continue
-        last[(b, pc)] = r
+        # a second result for the same instruction is a further poll of an await loop: keep the last
+        # value and the one bit "an earlier poll failed" (rendered like R's ROk)
+        last[(b, pc)] = ("ok " + r if r.isdigit() else r) if (b, pc) in last else r
     bodies = sorted({b for b, _ in last})
     return ";".join(
         f"{b}:" + ",".join(f"{pc}={last[(b2, pc)]}" for (b2, pc) in sorted(last) if b2 == b) for b in bodies)
